@@ -363,7 +363,7 @@ class Evaluator:
         if is_num(a) and is_num(b):
             r = _cmp_num(a, b)
             return {r} if r else None
-        if a[0] == "sym" and b[0] == "sym" and a[1] == b[1] and a[2] != b[2] and a[4] != b[4]:
+        if a[0] == "sym" and b[0] == "sym" and a[1] == b[1] and a[2] != b[2] and (a[4] != b[4] or a[3] != b[3]):
             # the two operands of one coordinate went through different maps (scaled by
             # different values / one side unscaled): for suitable inputs every order is realisable
             self.notes.add("the two sides of one comparison are transformed differently (%s vs %s)"
